@@ -662,10 +662,18 @@ func finish(ch *Check, tier string, t *ShardResult, wall time.Duration, workers 
 		fmt.Printf("  incomplete: %s\n", inc)
 	}
 	if len(t.HarnessErr) > 0 {
+		onlyDeaths := true
 		for _, e := range t.HarnessErr {
 			fmt.Fprintf(os.Stderr, "HARNESS-ERROR: %s\n", e)
+			if !strings.HasPrefix(e, "worker ") {
+				onlyDeaths = false
+			}
 		}
-		return 2
+		// a worker that died (e.g. killed for its memory use) takes its shard with it; violations that the other
+		// workers observed on the real code are facts all the same and are reported as such
+		if !(onlyDeaths && newVio > 0) {
+			return 2
+		}
 	}
 	if newVio > 0 {
 		return 1
